@@ -9,6 +9,7 @@ every store during compute, every pos/crd cell and array pointer, initialisation
 from __future__ import annotations
 
 import json
+import dataclasses as _dc
 import random
 
 from .. import controls, engine, gen, irvm, sweep, taco
@@ -116,7 +117,7 @@ def history(rec, rng, case, one_request, revals):
             if step > 0:
                 cur_inputs = revalue(rng, case)
                 poke_inputs(case, ins, cur_inputs)
-                case2 = engine.Case(case.assignment, case.formats, case.sizes, cur_inputs, case.capacity, case.origin, case.target, case.tree, case.direct_problem)
+                case2 = _dc.replace(case, inputs=cur_inputs)
                 resE2, _ = engine.run_function(case2, problem, fns["evaluate"])
                 rawE2, wantE = engine.decode_output(resE2.out)
                 if structure_of(rawE2) != sE:
